@@ -28,7 +28,7 @@ SCFG = "grep_searcher::searcher::Config"
 
 def run(ctx):
     facts = ctx.facts
-    with ctx.rule("C02.GATE", "one strategy predicate; every strategy run site enumerated", floor=10, kind="GUARD/PARITY") as r:
+    with ctx.rule("C02.GATE", "one strategy predicate; every strategy run site enumerated; line strategies behind check_config", floor=12, kind="GUARD/PARITY") as r:
         c13.strategy_rule(ctx, r)
         runs = []
         for f in facts.fns_in(SEARCHER + "::"):
@@ -46,6 +46,26 @@ def run(ctx):
                     r.bad(key, "result of %s is %s" % (c.path, v), fn=f, loc=c.loc)
             else:
                 r.bad(key, "a strategy is run from %s, outside the three entry points" % f.path, fn=f, loc=c.loc)
+        # a line strategy is only built after the configuration check (matcher and searcher agree on the line terminator):
+        # a mismatch would make the line splitter and the matcher disagree about what a line is
+        for f_ in facts.fns_in(SEARCHER + "::"):
+            news = [c for c in f_.calls() if c.path in (GLUE + "::SliceByLine::new", GLUE + "::ReadByLine::new")]
+            if not news:
+                continue
+            cc = f_.calls_to(SEARCHER + "::check_config")
+            key = "config|" + f_.path.split("::")[-1]
+            if cc and all(C.dominates(f_, cc[0].bb, n.bb) for n in news) and classify_result(f_, cc[0])[0] in ("try", "returned"):
+                r.ok(key, "check_config()? dominates the line strategy", fn=f_)
+            elif cc and all(C.dominates(f_, cc[0].bb, n.bb) for n in news):
+                # the result goes through map_err first: accept when that result is propagated
+                me = [c for c in f_.calls_to("core::result::Result::map_err") if C.dominates(f_, cc[0].bb, c.bb)]
+                if me and classify_result(f_, me[0])[0] in ("try", "returned"):
+                    r.ok(key, "check_config().map_err(..)? dominates the line strategy", fn=f_)
+                else:
+                    r.bad(key, "the result of check_config is not propagated in %s" % f_.path, fn=f_, loc=cc[0].loc, construct="check_config")
+            else:
+                r.bad(key, "%s builds a line strategy without checking that matcher and searcher agree on the line terminator "
+                      "(check_config)" % f_.path, fn=f_, loc=news[0].loc, construct="check_config")
         # search_file_maybe_path: mmap → search_slice; else multiline fill → MultiLine; else search_reader
         f = facts.fn(SEARCHER + "::search_file_maybe_path")
         want = [SEARCHER + "::search_slice", SEARCHER + "::fill_multi_line_buffer_from_file", SEARCHER + "::search_reader"]
